@@ -213,3 +213,44 @@ func verifH_C14_Sync_Sharded()    { verifC14(1, 0, false, 3) }
 func verifH_C14_Sync_Sync()       { verifC14(1, 1, false, 2) }
 func verifH_C14_Faults()          { verifC14(0, 0, true, 2) }
 func verifH_C14_Faults3()         { verifC14(0, 1, true, 3) }
+
+// Two transfers on the same pair of HTTPTransfer instances with type registrations in between:
+// each side's types hash may have changed before the second transfer; the decision of every
+// transfer must follow the hashes current at that transfer.
+func verifC14TwoRounds(expKind, impKind int) {
+	verifInstallClock(verifT0, verifT1, true)
+	savedHash := gobTypesHash
+	defer func() { gobTypesHash = savedHash }()
+	var exp, imp HTTPTransfer
+	expB := verifNewBackend(expKind, Config{ExpirationJitter: -1})
+	val, e := verifInt("val"), verifInt64("E")
+	verifAssume(val != 0)
+	expB.put([]byte("k1"), val, e, 0)
+	exp.AddCache("alpha", verifC14WDR(expB))
+	rt := &verifRT{h: exp.Export(), errRT: errors.New("connection refused"), failName: "-", cutName: "-"}
+	imp.Transport = rt
+	for round := 1; round <= 2; round++ {
+		impHash := uint64(verifInt64("importerTypesHash"))
+		expHash := impHash
+		if verifBool("typesHashDiffers") {
+			expHash = uint64(verifInt64("exporterTypesHash"))
+			verifAssume(expHash != impHash)
+		}
+		gobTypesHash = impHash
+		rt.exporterHash = expHash
+		impB := verifNewBackend(impKind, Config{ExpirationJitter: -1})
+		imp.AddCache("alpha", verifC14WDR(impB)) // a fresh, empty cache under the same name
+		err := imp.Import(context.Background(), "http://exporter/debug/transfer-cache")
+		verifAssert("Import returns nil", err == nil)
+		en, ok := impB.get([]byte("k1"))
+		if expHash != impHash {
+			verifReach("two rounds: refused")
+			verifAssert("nothing is imported when the name is unknown to the exporter or the types hash differs", !ok && impB.count() == 0)
+		} else {
+			verifReach("two rounds: imported")
+			verifAssert("imported cache holds exactly the exporter's entries of the same name", ok && en.val == val && en.e == e && impB.count() == 1)
+		}
+	}
+}
+
+func verifH_C14_TwoRounds() { verifC14TwoRounds(0, 1) }
